@@ -405,9 +405,11 @@ def grid(D, dbd_names, bkg_names, levels, modes, procs=16):
     for nm in dbd_names:
         jobs.append((1, nm, -1, levels, modes))
         jobs.append((1, nm, 1, [0], [1]))
+        jobs.append((1, nm, 0, [0], [1]))        # `initialise and generate one event` in one call (istart = 0)
     for nm in bkg_names:
         jobs.append((2, nm, -1, [-1], [-1]))     # the generator passes level -1, mode -1 for background requests
         jobs.append((2, nm, 1, [-1], [-1]))
+        jobs.append((2, nm, 0, [-1], [-1]))
     import multiprocessing as mp
     ctx = mp.get_context('fork')
     with ctx.Pool(procs) as pool:
